@@ -3,7 +3,7 @@
  *   canon(state') == U(tag, canon(state), buffer identity, len, count | mode<<8)   (uninterpreted)
  *   count', mode'  structural closed form (what the L1 contracts prove for every entry state)
  *   squeeze: when len == 32 the 32 output bytes are the big-endian bytes of the
- *            four uninterpreted words SQ(tag, canon(state), count|mode<<8, j), j = 0..3
+ *            four uninterpreted words SQ(tag, canon(state), count|mode<<8, j), j = 0..3 (len == 16: the first two)
  *            (the fixed-size digests that callers post-process); every squeeze call is
  *            recorded in the ghost log (buffer, length, entry state)
  * frame: *state, out[0..len), the ghost log. */
@@ -50,8 +50,8 @@ __CPROVER_ensures(LOG.count == __CPROVER_old(LOG.count) + 1 && LOG.tag == (TAG) 
     LOG.in[4] == CANON_W_OLD(&state->state, 4))
 
 /* absorb: count' = ((mode ? 0 : count) + len) mod rate_in, mode' = 0 */
-#define SP_ABSORB_SUMMARY(TAG, RIN) \
-__CPROVER_requires(state->count < (RIN) && inlen <= SP_MAX_LEN) \
+#define SP_ABSORB_SUMMARY(TAG, RIN, ROUT) \
+__CPROVER_requires(state->mode <= 1 && state->count < (state->mode ? (ROUT) : (RIN)) && inlen <= SP_MAX_LEN) \
 __CPROVER_requires(__CPROVER_rw_ok(state, sizeof(*state)) && (inlen == 0 || __CPROVER_r_ok(in, inlen))) \
 __CPROVER_assigns(*state, verif_absorb_log) \
 SP_STATE_ENSURES(TAG, in, inlen) \
@@ -62,28 +62,29 @@ __CPROVER_ensures(state->mode == 0 && state->count == (unsigned char)((( __CPROV
 #define SP_WORD_BYTES(p, w) ((p)[0] == (uint8_t)((w) >> 56) && (p)[1] == (uint8_t)((w) >> 48) && (p)[2] == (uint8_t)((w) >> 40) && \
     (p)[3] == (uint8_t)((w) >> 32) && (p)[4] == (uint8_t)((w) >> 24) && (p)[5] == (uint8_t)((w) >> 16) && (p)[6] == (uint8_t)((w) >> 8) && (p)[7] == (uint8_t)(w))
 #define SP_SQ_OLD(TAG, j) __CPROVER_uninterpreted_SQ((uint64_t)(TAG), SP_OLDW(state), SP_CM(__CPROVER_old(state->count), __CPROVER_old(state->mode)), (uint64_t)(j))
-#define SP_SQUEEZE_SUMMARY(TAG, ROUT) \
-__CPROVER_requires(state->count < (ROUT) && outlen <= SP_MAX_LEN) \
+#define SP_SQUEEZE_SUMMARY(TAG, RIN, ROUT) \
+__CPROVER_requires(state->mode <= 1 && state->count < (state->mode ? (ROUT) : (RIN)) && outlen <= SP_MAX_LEN) \
 __CPROVER_requires(__CPROVER_rw_ok(state, sizeof(*state)) && (outlen == 0 || __CPROVER_w_ok(out, outlen))) \
 __CPROVER_assigns(*state, verif_squeeze_log) \
 __CPROVER_assigns(outlen > 0: __CPROVER_object_upto(out, outlen)) \
 SP_STATE_ENSURES(TAG, 0, outlen) \
 SP_LOG_ENSURES(verif_squeeze_log, TAG, out, outlen) \
 __CPROVER_ensures(state->mode == 1 && state->count == (unsigned char)(((__CPROVER_old(state->mode) ? __CPROVER_old(state->count) : 0) + outlen) % (ROUT))) \
+__CPROVER_ensures(outlen != 16 || (SP_WORD_BYTES(out, SP_SQ_OLD(TAG, 0)) && SP_WORD_BYTES(out + 8, SP_SQ_OLD(TAG, 1)))) \
 __CPROVER_ensures(outlen != 32 || (SP_WORD_BYTES(out, SP_SQ_OLD(TAG, 0)) && SP_WORD_BYTES(out + 8, SP_SQ_OLD(TAG, 1)) && \
                                    SP_WORD_BYTES(out + 16, SP_SQ_OLD(TAG, 2)) && SP_WORD_BYTES(out + 24, SP_SQ_OLD(TAG, 3))))
 
 #if !defined(VERIF_NO_XOF_SUMMARY)
-void ascon_xof_absorb(ascon_xof_state_t *state, const unsigned char *in, size_t inlen) SP_ABSORB_SUMMARY(SP_TAG_XOF_ABSORB, 8);
-void ascon_xof_squeeze(ascon_xof_state_t *state, unsigned char *out, size_t outlen) SP_SQUEEZE_SUMMARY(SP_TAG_XOF_SQUEEZE, 8);
+void ascon_xof_absorb(ascon_xof_state_t *state, const unsigned char *in, size_t inlen) SP_ABSORB_SUMMARY(SP_TAG_XOF_ABSORB, 8, 8);
+void ascon_xof_squeeze(ascon_xof_state_t *state, unsigned char *out, size_t outlen) SP_SQUEEZE_SUMMARY(SP_TAG_XOF_SQUEEZE, 8, 8);
 #endif
 #if !defined(VERIF_NO_XOFA_SUMMARY)
-void ascon_xofa_absorb(ascon_xofa_state_t *state, const unsigned char *in, size_t inlen) SP_ABSORB_SUMMARY(SP_TAG_XOFA_ABSORB, 8);
-void ascon_xofa_squeeze(ascon_xofa_state_t *state, unsigned char *out, size_t outlen) SP_SQUEEZE_SUMMARY(SP_TAG_XOFA_SQUEEZE, 8);
+void ascon_xofa_absorb(ascon_xofa_state_t *state, const unsigned char *in, size_t inlen) SP_ABSORB_SUMMARY(SP_TAG_XOFA_ABSORB, 8, 8);
+void ascon_xofa_squeeze(ascon_xofa_state_t *state, unsigned char *out, size_t outlen) SP_SQUEEZE_SUMMARY(SP_TAG_XOFA_SQUEEZE, 8, 8);
 #endif
 #if !defined(VERIF_NO_PRF_SUMMARY)
-void ascon_prf_absorb(ascon_prf_state_t *state, const unsigned char *in, size_t inlen) SP_ABSORB_SUMMARY(SP_TAG_PRF_ABSORB, 32);
-void ascon_prf_squeeze(ascon_prf_state_t *state, unsigned char *out, size_t outlen) SP_SQUEEZE_SUMMARY(SP_TAG_PRF_SQUEEZE, 16);
+void ascon_prf_absorb(ascon_prf_state_t *state, const unsigned char *in, size_t inlen) SP_ABSORB_SUMMARY(SP_TAG_PRF_ABSORB, 32, 16);
+void ascon_prf_squeeze(ascon_prf_state_t *state, unsigned char *out, size_t outlen) SP_SQUEEZE_SUMMARY(SP_TAG_PRF_SQUEEZE, 32, 16);
 #endif
 
 #endif
